@@ -577,6 +577,47 @@ func TestC20(t *testing.T) {
 				found[ji] = append(found[ji], check("two-instances-one-registry", exported, mfs, err)...)
 			}
 		}
+		if len(rs) >= 2 && len(rs) <= 3 {
+			// registration is not a reset: results observed before a Metrics value is registered (or before it is
+			// registered in a second registry as well) count like the others in every registry it is in
+			h := len(rs) / 2
+			{
+				reg := prometheus.NewRegistry()
+				pm := prom.NewMetrics()
+				for i := range rs[:h] {
+					pm.Observe(&rs[i])
+				}
+				if err := pm.Register(reg); err == nil {
+					for i := h; i < len(rs); i++ {
+						pm.Observe(&rs[i])
+					}
+					mfs, err := reg.Gather()
+					R.Eval(1)
+					R.Trans(len(rs) + 2)
+					found[ji] = append(found[ji], check("observed-before-registered", rs, mfs, err)...)
+				}
+			}
+			{
+				reg1, reg2 := prometheus.NewRegistry(), prometheus.NewRegistry()
+				pm := prom.NewMetrics()
+				if err := pm.Register(reg1); err == nil {
+					for i := range rs[:h] {
+						pm.Observe(&rs[i])
+					}
+					if err := pm.Register(reg2); err == nil {
+						for i := h; i < len(rs); i++ {
+							pm.Observe(&rs[i])
+						}
+						for _, reg := range []*prometheus.Registry{reg1, reg2} {
+							mfs, err := reg.Gather()
+							R.Eval(1)
+							R.Trans(len(rs) + 3)
+							found[ji] = append(found[ji], check("one-instance-in-two-registries", rs, mfs, err)...)
+						}
+					}
+				}
+			}
+		}
 		// the export as a scraper sees it: the HTTP handler is scraped after every observation (scrapes follow
 		// each other within microseconds); every scrape shows the sums over what was observed by then
 		if len(rs) >= 1 && len(rs) <= 3 {
